@@ -114,13 +114,17 @@ def cdec (given : Option Name) (force : Bool) (chunks : List (List Nat)) : Strin
     (match oneShotE cpyInner given force chunks.flatten with | none => "RAISE" | some t => encCps t)
 
 def cenc (given : Option Name) (chunks : List (List Nat)) : String :=
-  let rec go (s : ESt) (cs : List (List Nat)) (acc : List String) : ESt × List String :=
+  let rec go (s : ESt) (cs : List (List Nat)) (acc : List String) : List String :=
     match cs with
-    | [] => (s, acc.reverse)
-    | c :: cs => let r := estep cpyInnerEnc s c false; go r.1 cs (encCps r.2 :: acc)
-  let r := go (.waiting given []) chunks []
-  let fin := estep cpyInnerEnc r.1 [] true
-  " ".intercalate r.2 ++ " | " ++ encCps fin.2 ++ " | " ++ encCps (encodeOneShot cpyInnerEnc given chunks.flatten)
+    | [] => match estepE cpyInnerEnc s [] true with
+      | none => ("RAISE" :: acc).reverse
+      | some r => (encCps r.2 :: acc).reverse
+    | c :: cs => match estepE cpyInnerEnc s c false with
+      | none => ("RAISE" :: acc).reverse
+      | some r => go r.1 cs (encCps r.2 :: acc)
+  " ".intercalate (go (.waiting given []) chunks []) ++ " | " ++
+    (match erunAllE cpyInnerEnc given chunks with | none => "RAISE" | some t => encCps t) ++ " | " ++
+    (match encodeOneShotE cpyInnerEnc given chunks.flatten with | none => "RAISE" | some t => encCps t)
 
 /-- `sread given force chunk…`: `newchars` of every turn of the `read()` loop of the CSS stream reader over
 CPython's inner decoders | 1 if the reader is still waiting at the end | one-shot -/
